@@ -578,3 +578,30 @@ Proof.
   - intro Hs. apply A. destruct r; simpl in *; congruence.
   - intros Hs. rewrite A. destruct r; simpl in *; split; congruence.
 Qed.
+
+(* ---------- the Pool entry is a reference count ---------- *)
+
+(* every step moves the [pool] field as pool_get / pool_put say; a fresh entry is a zero Merge *)
+Lemma pool_is_refcount sg s e s' :
+  step sg s e = Some s' ->
+  match e with
+  | EGet _ _ => pool s' = fst (pool_get (pool s)) /\
+                (snd (pool_get (pool s)) = true ->
+                 items s' = [] /\ pending s' = [] /\ committed s' = false /\ token s' = false)
+  | EDone _ => pool s' = pool_put (pool s)
+  | _ => pool s' = pool s
+  end.
+Proof.
+  intro H. destruct e; simpl in H; step_inv H; simpl; auto; try discriminate.
+  split; auto. discriminate.
+Qed.
+
+(* two holders never see two entries: while somebody holds the entry, Get does not create one *)
+Lemma pool_shared sg r0 st0 tr s t c s' :
+  run sg (init r0 st0) tr = Some s -> (exists x, holding (pcs s x) = true) ->
+  step sg s (EGet t c) = Some s' -> snd (pool_get (pool s)) = false.
+Proof.
+  intros H (x & Hx) Hs. destruct (reachable_inv _ _ _ _ _ H) as [I _].
+  destruct (pool s) eqn:Ep; [reflexivity|]. exfalso.
+  destruct (pool_none s I Ep) as (Hn & _). rewrite Hn in Hx. discriminate.
+Qed.
